@@ -11,6 +11,7 @@ namespace sim
       {
          std::string oracle;
          unsigned reruns = 0;
+         bool force_fork = false;
          unsigned budget = 3000;  // in-process; forked candidates cost ~1-10 ms each
 
          bool fails( const Job& x )
@@ -27,6 +28,9 @@ namespace sim
                const int c = judge_forked( x, oracle );
                const bool poison = oracle.compare( oracle.size() - 7, 7, ".poison" ) == 0;
                return poison ? ( c == 77 ) : ( c == 99 );
+            }
+            if( force_fork ) {
+               return judge_forked( x, oracle ) == 1;
             }
             const Verdict v = judge( x );
             if( v.discarded ) {
@@ -255,10 +259,14 @@ namespace sim
       };
    }  // namespace
 
-   Job shrink_job( const Job& j, const std::string& oracle, unsigned& reruns )
+   Job shrink_job( const Job& j, const std::string& oracle, unsigned& reruns, bool force_fork )
    {
       Shrinker s;
       s.oracle = oracle;
+      s.force_fork = force_fork;
+      if( force_fork ) {
+         s.budget = 1200;
+      }
       Job best = j;
       for( int round = 0; round < 6; ++round ) {
          bool progress = false;
